@@ -42,4 +42,30 @@ theorem strSorted (l : List String) : (sortBy strLe l).Pairwise fun a b => a ≤
   | nil => simp [sortBy]
   | cons x xs ih => exact insertSorted_str x _ ih
 
+/-- fixes/entry/04: the selection loop over the `os.ReadDir` entries (`e.Type().IsRegular() && isWALSegmentName(name)`)
+selects exactly the segment names among the regular files -/
+theorem walFilesOf_eq (es : Entries) : walFilesOf es = walFiles (regularFiles es) := by
+  unfold walFilesOf walFiles regularFiles
+  congr 1
+  rw [List.map_map, List.filter_map, List.filter_filter]
+  apply congrArg
+  apply List.filter_congr
+  intro e _
+  simp [Bool.and_comm]
+
+theorem mem_walFilesOf (es : Entries) (n : String) :
+    n ∈ walFilesOf es ↔ ∃ e ∈ es, e.name = n ∧ e.kind = .regular ∧ isWALSegmentName n = true := by
+  unfold walFilesOf
+  rw [(sortBy_perm strLe _).mem_iff, List.mem_map]
+  constructor
+  · rintro ⟨e, he, rfl⟩
+    rw [List.mem_filter, Bool.and_eq_true] at he
+    refine ⟨e, he.1, rfl, ?_, he.2.2⟩
+    have := he.2.1
+    simpa [DirEntry.isRegular] using this
+  · rintro ⟨e, he, rfl, hk, hn⟩
+    refine ⟨e, ?_, rfl⟩
+    rw [List.mem_filter, Bool.and_eq_true]
+    exact ⟨he, by simp [DirEntry.isRegular, hk], hn⟩
+
 end PgVerif.Proofs.Wal
